@@ -101,6 +101,37 @@ def run(ctx):
         for ln in sorted(set([0, max(0, d.fp_num - 1), d.fp_num + 1, d.fp_num + 3]) - {d.fp_num}):
             key = rng.choice([k for k, _ in h.schema] + ['q'])
             fault(h, 'set_prop:len', ln, lambda: h.op_set_prop(t, key, [1] * ln, tag='set_prop_fault'))
+        # property arrays whose ELEMENT count equals the row count but whose first dimension does not (2-D arrays): "a property array
+        # of its own row count" is about rows.  Outside the model (columns are 1-D there): refusal and atomicity are checked on the
+        # implementation directly; the database object is untouched when the check passes, so model and implementation stay in step.
+        import numpy as np
+        n_rows = d.fp_num
+        shapes = [(1, n_rows)] if n_rows >= 2 else []
+        shapes += [(r, n_rows // r) for r in (2, 3) if n_rows % r == 0 and n_rows // r >= 1 and r != n_rows]
+        if n_rows == 1:
+            shapes.append(())            # a 0-d array has one element and no rows
+        for shp in shapes:
+            key = rng.choice([k for k, _ in h.schema] + ['q2'])
+            arr = np.arange(n_rows).reshape(shp)
+            before = _state(h)
+            try:
+                d.set_prop(key, arr)
+                accepted = True
+            except Exception:
+                accepted = False
+            dist['fault_ops'] += 1
+            dist['by_fault']['set_prop:2d-shape'] = dist['by_fault'].get('set_prop:2d-shape', 0) + 1
+            ctx.count(('set_prop:2d-shape', shp, n_rows, key in d.props), True)
+            if accepted:
+                found_input = True
+                ctx.fail('a property array with %d rows was accepted by a database of %d rows (shape %r has the right number of ELEMENTS)' % (shp[0] if shp else 0, n_rows, shp),
+                         {'fault': 'set_prop:2d-shape', 'shape': list(shp), 'rows': n_rows, 'key': key, 'ops': dbgen.descs_of(h.steps)}, finding_key='accepted:set_prop:2d-shape')
+                break
+            if _state(h) != before:
+                found_input = True
+                ctx.fail('database changed by a refused set_prop (2-D array of shape %r)' % (shp,), {'fault': 'set_prop:2d-shape', 'shape': list(shp), 'rows': n_rows, 'key': key,
+                         'ops': dbgen.descs_of(h.steps)}, finding_key='not-atomic:set_prop:2d-shape')
+                break
         ncols = rng.choice([1, 2, 3])
         for pos in range(ncols):
             colnames = rng.sample([k for k, _ in h.schema] + ['u0', 'u1', 'u2'], ncols)
